@@ -586,7 +586,8 @@ def run(ctx):
                 "interior, far outside, and NaN/inf/1e30/out-of-range lon/lat; all five modules run through their public entry points on the "
                 "same lon/lat (plus projection-coordinate and scalar entry points of the area, masked/filled images, ImageContainerQuick on an "
                 "overhanging half-pixel-shifted target); utils.generate_quick_linesample_arrays + ImageContainer.get_array_from_linesample on small "
-                "sources with targets k*65536 (+- a few) pixels away in each direction and on sources of width/height 65535 / 65536.  A case is non-trivial when the point is not strictly interior far from a border "
+                "sources with targets k*65536 (+- a few) pixels away in each direction and on sources of width/height 65535 / 65536; the deprecated aliases get_xy_from_lonlat / lonlat2colrow / get_xy_from_proj_coords must return exactly "
+                "what the lookup they stand for returns.  Samples are picked by a fixed plan (one per stream/class/CRS).  A case is non-trivial when the point is not strictly interior far from a border "
                 "(edge band, border line, outside, non-finite); distinct = distinct (area, lon, lat)")
     areas = gen_areas(ctx)
     specs = build_request(ctx, areas)
